@@ -216,6 +216,233 @@ def gen_offset_emb(rng, n):
     return cases
 
 
+# ----------------------------------------------------------------------------- wave 4: wide dynamic range
+WIDE_RATIOS = [Fraction(1, 3), Fraction(1, 10), Fraction(1, 10 ** 4), Fraction(3, 10 ** 5), Fraction(1, 10 ** 5),
+               Fraction(1, 10 ** 6), Fraction(1, 10 ** 7)]
+
+
+def wide_profile(rng, D):
+    """principal standard deviations 1 = s_0 > s_1 > ... : consecutive ratios out of 1/3, 1/10, 1e-4, 3e-5, 1e-5, 1e-6,
+    1e-7, at least one of them <= 1e-4, the whole span >= 1e-7 (variances down to 1e-14 of the largest): every
+    principal variance is genuine and non-degenerate, none is 'numerically zero' in the relative sense"""
+    while True:
+        s = [Fraction(1)]
+        for _ in range(D - 1):
+            s.append(s[-1] * rng.choice(WIDE_RATIOS))
+        if s[-1] >= Fraction(1, 10 ** 7) and any(s[k + 1] * 10 ** 4 <= s[k] for k in range(D - 1)):
+            return s
+
+
+def random_frame(rng, D):
+    cols = []
+    while len(cols) < D:
+        v = [rng.gauss(0, 1) for _ in range(D)]
+        for u in cols:
+            t = sum(a * b for a, b in zip(u, v))
+            v = [a - t * b for a, b in zip(v, u)]
+        n = math.sqrt(sum(a * a for a in v))
+        if n > 0.2:
+            cols.append([a / n for a in v])
+    return cols
+
+
+def gen_wide_range(rng, N, D, axis_aligned=False):
+    """x = offset + sum_k s_k z_ik q_k: a random orthonormal frame q (or the coordinate axes: features in mixed units),
+    z uniform or Gaussian of unit variance, standard deviations s from wide_profile; arbitrary doubles"""
+    s = [float(v) for v in wide_profile(rng, D)]
+    q = [[1.0 if a == b else 0.0 for b in range(D)] for a in range(D)] if axis_aligned else random_frame(rng, D)
+    rng.shuffle(q)
+    off = [rng.choice([0.0, rng.uniform(-1, 1), rng.uniform(-1, 1)]) for _ in range(D)]
+    gauss = rng.random() < 0.5
+    X = []
+    for _ in range(N):
+        z = [rng.gauss(0, 1) if gauss else rng.uniform(-1, 1) * math.sqrt(3) for _ in range(D)]
+        X.append([Fraction(off[t] + math.fsum(s[k] * z[k] * q[k][t] for k in range(D))) for t in range(D)])
+    return X, s
+
+
+def gen_wide_emb(rng, reps):
+    """PCA(dense) on wide-dynamic-range data at EVERY small D (2, 3, 4, 5) and small target dimensions"""
+    cases = []
+    for rep in range(reps):
+        for D in (2, 3, 4, 5):
+            for d in sorted({1, 2, D - 1}):
+                N = rng.choice([8, 12, 20, 33])
+                X, s = gen_wide_range(rng, N, D, axis_aligned=(rep % 4 == 3))
+                cases.append({"kind": "EMB", "solver": "dense", "N": N, "D": D, "d": min(d, D), "X": X,
+                              "style": "wide-range", "sd_profile": ["%.0e" % v for v in s], "agree": False})
+    return cases
+
+
+def int_matrix(C):
+    """C = Ci / q with Ci an integer matrix, q a positive integer"""
+    q = 1
+    for row in C:
+        for v in row:
+            q = q * v.denominator // math.gcd(q, v.denominator)
+    return [[int(v * q) for v in row] for row in C], q
+
+
+def eigs_below(Ci, q, x):
+    """number of eigenvalues of the symmetric rational matrix Ci / q that are < x, EXACTLY: signs of the leading
+    principal minors of (Ci / q - x I) (fraction-free Bareiss elimination over the integers; Sylvester / Sturm).
+    None when a leading minor vanishes (the caller moves x)."""
+    a, b = x.numerator, x.denominator
+    n = len(Ci)
+    A = [[Ci[i][j] * b - (a * q if i == j else 0) for j in range(n)] for i in range(n)]
+    prev, neg, sign = 1, 0, 1
+    for k in range(n):
+        piv = A[k][k]
+        if piv == 0:
+            return None
+        s2 = 1 if piv > 0 else -1
+        if s2 != sign:
+            neg += 1
+        sign = s2
+        for i in range(k + 1, n):
+            Ai, aik = A[i], A[i][k]
+            for j in range(k + 1, n):
+                Ai[j] = (Ai[j] * piv - aik * A[k][j]) // prev
+        prev = piv
+    return neg
+
+
+def count_below(Ci, q, x, nudge):
+    for t in range(6):
+        r = eigs_below(Ci, q, x + nudge * t)
+        if r is not None:
+            return r, x + nudge * t
+    return None, x
+
+
+def certified_spectrum(C, approx, w0, want_fn, maxsteps=90):
+    """enclosures lo_i < lambda_i < hi_i (ascending, i < D) of ALL eigenvalues of the exact rational matrix C, certified
+    by exact inertia counts; start: approx_i -+ w0 (doubled until the counts confirm it); the indices named by
+    want_fn(enclosures) (dict index -> target width) are then bisected down to their target width.  None if it cannot be certified."""
+    D = len(C)
+    Ci, q = int_matrix(C)
+    big = max(maxabs(C), Fraction(1, 2 ** 200))
+    nudge = big / 2 ** 120
+    enc = []
+    for i in range(D):
+        w = w0
+        for _ in range(60):
+            lo, hi = approx[i] - w, approx[i] + w
+            cl, lo = count_below(Ci, q, lo, -nudge)
+            ch, hi = count_below(Ci, q, hi, nudge)
+            if cl is None or ch is None:
+                return None
+            if cl <= i and ch >= i + 1:
+                break
+            w *= 2
+        else:
+            return None
+        enc.append([lo, hi])
+    for i, width in want_fn(enc).items():
+        lo, hi = enc[i]
+        steps = 0
+        while hi - lo > width and steps < maxsteps:
+            mid = (lo + hi) / 2
+            cm, mid = count_below(Ci, q, mid, nudge / 4)
+            if cm is None:
+                return None
+            if cm >= i + 1:
+                hi = mid
+            else:
+                lo = mid
+            steps += 1
+        enc[i] = [lo, hi]
+    return enc
+
+
+def eta_dense(c, Cm, Xn):
+    """what binary64 delivers for PCA(dense), as a bound on the residual |C p - lambda p| of every returned pair against
+    the EXACT covariance C of the data (natural units): the computed covariance is C + E with |E_ab| <= 8 (N + 4) u *
+    1/N sum_i |x_ia - m_a| |x_ib - m_b| (accumulation of centred outer products) + the square of the rounding error of
+    the computed mean; Eigen's tridiagonalisation + implicit QR is backward stable: exact for C_hat + F,
+    |F| <= p(D) u |C_hat| with a modest p(D), taken as 32 D^2 here (generous: measured residuals are recorded in the
+    evidence as a fraction of this bound)."""
+    N, D = c["N"], c["D"]
+    pow2 = N & (N - 1) == 0
+    exact_mean = is_offset_style(c) and pow2 and not c["style"].endswith("-generic")
+    return (D * 8 * (N + 4) * UNIT_ROUNDOFF * spread_scale(Xn) + 32 * D * D * UNIT_ROUNDOFF * maxabs(Cm)
+            + D * mean_error_sq(Xn, exact_mean))
+
+
+def gap_tolerance(enc, i, eta):
+    """sum_j min(|lambda_j - lambda_i|, eta^2 / |lambda_j - lambda_i|) from the enclosures: if |C p - lambda_i p| <= eta
+    for a unit vector p = sum_j a_j v_j then a_j (lambda_j - lambda_i) = v_j^T (C p - lambda_i p), so |a_j| <= eta /
+    |lambda_j - lambda_i|, and the Rayleigh quotient is p^T C p - lambda_i = sum_j (lambda_j - lambda_i) a_j^2.
+    Relative to lambda_i this is tiny wherever the spectrum is separated from lambda_i by much more than eta (the
+    kept variance is then resolved to a RELATIVE accuracy eta^2 / (gap lambda_i)), and degrades to the absolute eta
+    where it is not: exactly what a backward-stable symmetric eigensolver can promise."""
+    lo_i, hi_i = enc[i]
+    tol = Fraction(0)
+    for j, (lo, hi) in enumerate(enc):
+        if j == i:
+            continue
+        g_ub = max(hi - lo_i, hi_i - lo)
+        g_lb = max(lo - hi_i, lo_i - hi, Fraction(0))
+        tol += g_ub if g_lb <= eta else min(g_ub, eta * eta / g_lb)
+    return tol
+
+
+def kept_variance_relative(Cm, P, ev, order, eta, D, d):
+    """the RELATIVE per-eigenpair criterion (wave 4).  Column c of P is paired with the (D - d + rank_c)-th eigenvalue
+    (ascending; rank_c = rank of its Rayleigh quotient among the columns: the order of the columns is free).  Its
+    kept variance rho_c = p_c^T C p_c / p_c^T p_c (exact rationals, C the EXACT covariance of the data) must lie in
+    the certified enclosure of that eigenvalue widened by gap_tolerance: relative accuracy eta^2 / (gap lambda) where
+    the spectrum is separated by more than eta, absolute eta where it is not.
+    Returns (status, message): status in 'ok' | 'fail' | 'uncertified'."""
+    pn = [sum(P[t][cc] ** 2 for t in range(D)) for cc in range(d)]
+    if any(v == 0 for v in pn):
+        return "fail", "a column of the projection matrix is identically zero"
+    rho = [sum(P[a][cc] * Cm[a][b] * P[b][cc] for a in range(D) for b in range(D)) / pn[cc] for cc in range(d)]
+    idx = {cc: D - d + rank for rank, cc in enumerate(order)}
+    floor = max(maxabs(Cm), Fraction(1, 2 ** 300)) / 2 ** 100
+
+    def want(enc):
+        return {i: max(gap_tolerance(enc, i, eta) / 8, floor) for i in set(idx.values())}
+    enc = certified_spectrum(Cm, ev, eta / 8, want)
+    if enc is None:
+        return "uncertified", ""
+    for cc in range(d):
+        i = idx[cc]
+        lo, hi = enc[i]
+        tol = gap_tolerance(enc, i, eta)
+        if not (lo - tol <= rho[cc] <= hi + tol):
+            lam = (lo + hi) / 2
+            err = abs(rho[cc] - lam)
+            others = ", ".join("%.3e" % float((a + b) / 2) for a, b in enc)
+            return "fail", ("column %d keeps variance %.12e (Rayleigh quotient p^T C p / p^T p against the EXACT covariance "
+                            "of the data, natural units) where the %s largest covariance eigenvalue is %.12e (certified by "
+                            "exact inertia counts; whole spectrum %s): error %.3e = %.3g relative, tolerance %.3e = sum_j "
+                            "min(|lambda_j - lambda|, eta^2 / |lambda_j - lambda|) with eta = %.3e the residual bound of a "
+                            "backward-stable solve of the binary64 covariance: the column mixes in another principal "
+                            "direction (sin^2 of the angle >= %.3g)" % (
+                                cc, ordinal(D - i), float(lam), others, float(err),
+                                float(err / lam) if lam > 0 else float("inf"), float(tol), float(eta),
+                                min(1.0, float(err / max(hi - enc[0][0], floor)))))
+    return "ok", ""
+
+
+def ordinal(k):
+    return "%d%s" % (k, {1: "st", 2: "nd", 3: "rd"}.get(k if k < 20 else k % 10, "th"))
+
+
+def residual_over_eta(Cm, P, top, eta, D, d):
+    """max(|C P - P diag(top)|, |P^T P - I|) / eta, entrywise: how much of the bound eta the shipped code uses"""
+    worst = Fraction(0)
+    for cc in range(d):
+        for a in range(D):
+            r = sum(Cm[a][b] * P[b][cc] for b in range(D)) - top[cc] * P[a][cc]
+            worst = max(worst, abs(r))
+        for c2 in range(d):
+            g = sum(P[t][cc] * P[t][c2] for t in range(D)) - (1 if cc == c2 else 0)
+            worst = max(worst, abs(g))
+    return worst / eta if eta > 0 else Fraction(0)
+
+
 def spread_scale(X):
     """max_ab 1/N sum_i |x_ia - m_a| |x_ib - m_b| for the exact mean m: the magnitude of the covariance's OWN
     condition (what the rounding error of accumulating centred outer products is relative to)"""
@@ -582,6 +809,8 @@ class Stats:
         self.old_model_matches = 0
         self.views = {}
         self.gs_replays = 0
+        self.relative = {}
+        self.worst_resid = Fraction(0)
 
     def bump(self, d, k, n=1):
         d[k] = d.get(k, 0) + n
@@ -858,11 +1087,20 @@ def evaluate(ctx, exe, mexe, cases, st, record=True):
         N, d = c["N"], c["d"]
         tolr = TOL_RAND if c["solver"] == "randomized" else TOL_DENSE
         cscale = 1 + scale_tol(Cm)
-        tol = tolr * cscale * D
-        if is_offset_style(c):
-            # a computed mean off by delta turns the centred second moment into C + delta delta^T (natural units)
-            pow2 = N & (N - 1) == 0
-            tol += D * mean_error_sq(mscale(c["X"], units.get(i, unit_of(c))), pow2 and not c["style"].endswith("-generic"))
+        Xn = mscale(c["X"], units.get(i, unit_of(c)))
+        eta = None
+        if c["solver"] == "dense":
+            # wave 4: what binary64 delivers (eta_dense: a few hundred to a few thousand unit roundoffs of |C|), not the
+            # flat 1e-9 of waves 1-3, which was blind to anything below sqrt(eps): a solver with ABSOLUTE accuracy
+            # 1e-9 |C| mixes principal directions whose variances are both below that
+            eta = eta_dense(c, Cm, Xn)
+            tol = eta
+        else:
+            tol = tolr * cscale * D
+            if is_offset_style(c):
+                # a computed mean off by delta turns the centred second moment into C + delta delta^T (natural units)
+                pow2 = N & (N - 1) == 0
+                tol += D * mean_error_sq(Xn, pow2 and not c["style"].endswith("-generic"))
         top_sorted = ev[-d:]
         # the property does not fix the ORDER of the columns: pair the d largest reference eigenvalues
         # with the columns by the rank of each column's Rayleigh quotient p_c^T C p_c
@@ -877,12 +1115,23 @@ def evaluate(ctx, exe, mexe, cases, st, record=True):
         if order != list(range(d)):
             st.bump(st.views, "pca-columns-not-in-ascending-eigenvalue-order")
         cs, ps = fnums(flat(Cm)), fnums(flat(P))
-        Xn = mscale(c["X"], units.get(i, unit_of(c)))
         xs = fnums(flat(Xn))
+        tol_txt = ""
+        if eta is not None:
+            tol_txt = (" within %.3g in natural units (max|C| in [1, 4)): the residual bound of a backward-stable solve of "
+                       "the covariance accumulated in binary64" % float(eta))
+            if D <= 12:
+                st.worst_resid = max(st.worst_resid, residual_over_eta(Cm, P, top, eta, D, d))
+            if D <= 6:
+                status, msg = kept_variance_relative(Cm, P, ev, order, eta, D, d)
+                st.bump(st.relative, status)
+                if status == "fail":
+                    viol(i, "PCA(dense): " + msg)
         spec_lines.append("SEIG %d %d %s %s %s %s" % (D, d, fr_hex(tol), cs, ps, fnums(top)))
         spec_owner.append((i, "PCA(%s): the returned projection matrix does not have orthonormal columns spanning "
                               "the leading %d-dimensional eigenspace of the sample covariance (C P != P diag(top-d "
-                              "eigenvalues %s) or P^T P != I)" % (c["solver"], d, [float(x) for x in top]), "violation"))
+                              "eigenvalues %s) or P^T P != I%s)" % (c["solver"], d, [float(x) for x in top], tol_txt),
+                           "violation"))
         xscale = 1 + scale_tol(Xn) + scale_tol([mv])
         spec_lines.append("SOUT %d %d %d %s %s %s %s %s" % (N, D, d, fr_hex(tolr * xscale * D), xs, fnums(flat(Y)), ps,
                                                            fnums(mv)))
@@ -1120,10 +1369,14 @@ def build_cases(ctx, quick):
         embs.append(c)
     embs += gen_boundary_emb(rng, [256, 257] if quick else BOUNDARY_N_THOROUGH, wide=not quick)
     embs += gen_offset_emb(rng, 8 if quick else 64)
+    embs += gen_wide_emb(rng, 1 if quick else 8)
     for j, c in enumerate(embs):
         add(c, "api:pca-dense")
         if is_offset_style(c):
             hist["large-offset:" + c["style"]] = hist.get("large-offset:" + c["style"], 0) + 1
+        if c["style"] == "wide-range":
+            key = "wide-dynamic-range:D=%d,d=%d" % (c["D"], c["d"])
+            hist[key] = hist.get(key, 0) + 1
         if j % every == 0:
             add(scaled_copy(c, rand_scale(rng)), "api:pca-dense")
     for j in range(n_rand):
@@ -1161,6 +1414,7 @@ def run(ctx):
         extra += [scaled_copy(c, rand_scale(ctx.rng)) for c in extra if ctx.rng.random() < 0.5]
         embs = [gen_emb(ctx.rng, "dense", "small" if j % 8 else "large") for j in range(150)]
         embs += gen_boundary_emb(ctx.rng, [256, 257]) + gen_boundary_emb(ctx.rng, []) + gen_offset_emb(ctx.rng, 24)
+        embs += gen_wide_emb(ctx.rng, 4)
         extra += embs + [scaled_copy(c, rand_scale(ctx.rng)) for c in embs if ctx.rng.random() < 0.5]
         for j in range(30):
             c = gen_emb(ctx.rng, "randomized")
@@ -1225,6 +1479,13 @@ def run(ctx):
              "and the partial sums are exact: implementation == model), covariance tolerance stream (arbitrary doubles, "
              "any N) and PCA dense; verdicts relative to the SPREAD about the mean (8 (N + 4) 2^-53 * max_ab 1/N sum "
              "|x_a - m_a| |x_b - m_b| + squared rounding error of the computed mean), never to |x|^2.  "
+             "Wave 4: PCA dense on WIDE-DYNAMIC-RANGE data at every D in 2..5 and d in {1, 2, D-1}: principal standard "
+             "deviations 1 > s_1 > ... with consecutive ratios out of 1/3, 1/10, 1e-4, 3e-5, 1e-5, 1e-6, 1e-7 (at least one "
+             "<= 1e-4; variances down to 1e-14 of the largest), random orthonormal frame or coordinate axes, arbitrary "
+             "doubles; EVERY dense PCA case is now judged at eta = what binary64 delivers (D 8 (N+4) u spread + 32 D^2 u "
+             "max|C| + D mean-error^2, natural units) instead of 1e-9, and for D <= 6 by the relative per-eigenpair "
+             "criterion (kept variance of each column against the eigenvalue certified by exact inertia counts on the "
+             "exact rational covariance, tolerance sum_j min(gap_j, eta^2 / gap_j)).  "
              "non-trivial = "
              "COV/EMB with N >= 2 and D >= 2, or a probe; distinct by hash of the case.",
         samples=samples,
@@ -1235,7 +1496,9 @@ def run(ctx):
                    "returned_matrix_equals_pre_F8_model": st.old_model_matches, "search_phase_cases": searched,
                    "front_end_views_differing_from_the_model": st.views,
                    "pca_cases_rerun_with_eigen_assertions": eigen_dbg,
-                   "randomized_gram_schmidt_replays": st.gs_replays},
+                   "randomized_gram_schmidt_replays": st.gs_replays,
+                   "relative_kept_variance_criterion": st.relative,
+                   "worst_dense_residual_as_fraction_of_eta": float(st.worst_resid)},
         trusted_base=TRUSTED,
         assumptions=["feature vectors are finite doubles of the announced dimension, N >= 1",
                      "target_dimension <= min(D, N-1) (larger values are the open finding F21, owned by C01)",
